@@ -264,6 +264,10 @@ def run(case):
     np.random.seed(case['sub'] % (2 ** 31))
     # (the axis as float array and as integer array, as a caller writes np.array([1, 1]))
     align = [None, None, np.array([1.0, 0.0]), np.array([0.0, 1.0]), np.array([1.0, 1.0]), np.array([1, 1]), np.array([2, 1]), np.array([3, -4])][case['sub'] % 8]
+    if case['sub'] % 5 == 3:
+        # the bond length as a numpy scalar (an element of an array of settings) instead of a Python number
+        case = dict(case, bond=(np.int64(case['bond']) if float(case['bond']).is_integer() else np.float32(case['bond'])))
+        txt += f' [bond length given as {type(case["bond"]).__name__}]'
     positional = case['sub'] % 3 == 1       # the bond length (and the axis) handed over by position instead of by keyword
     try:
         if align is None:
